@@ -223,6 +223,9 @@ def streams(ctx):
     for c in scases:
         c["tag"] = None
 
+    import extract
+    NONREG = tuple(extract.ex_parsers(vlib.REPO)["nonRegistryPrefixes"])
+
     def derive_s(cs, impl):
         der = []
         for i, (c, o) in enumerate(zip(cs, impl)):
@@ -242,7 +245,8 @@ def streams(ctx):
             def chk(out, got=got, v=v, site=c["site"]):
                 want = out
                 if site == "npmalias":
-                    if v.startswith(("catalog:", "workspace:", "file:", "link:", "git+", "git:", "git@", "github:", "http:", "https:")):
+                    # a non-registry specifier never reaches the alias parser: the regenerated prefix list, and a slash outside an npm: alias
+                    if v.startswith(NONREG) or ("/" in v and not v.startswith("npm:")):
                         want = "N"
                     elif out == "N":
                         want = "P" + vlib.hx("k") + "|" + vlib.hx(v)
